@@ -70,8 +70,9 @@ type World struct {
 	Mu   sync.Mutex
 	cond *sync.Cond
 
-	seq   int64
-	Trace []Event
+	seq     int64
+	effects int64 // events other than hook-point passages
+	Trace   []Event
 	// DataCap limits the bytes copied into Event.Data.
 	DataCap int
 
@@ -165,7 +166,18 @@ func (w *World) log(e Event) int64 {
 		e.Data = append([]byte(nil), e.Data...)
 	}
 	w.Trace = append(w.Trace, e)
+	if e.Kind != "point" {
+		w.effects++
+	}
 	return e.Seq
+}
+
+// Effects counts the events other than passages of hook points: a goroutine
+// that polls passes points without anything happening.
+func (w *World) Effects() int64 {
+	w.Mu.Lock()
+	defer w.Mu.Unlock()
+	return w.effects
 }
 
 // Log appends an event from outside.
@@ -396,7 +408,7 @@ func Starved(window time.Duration) bool {
 // across a window. Wedged means nothing can change any more.
 func (w *World) Diagnose(window time.Duration) (wedged bool, report string) {
 	s1 := MqttStacks()
-	n1 := w.Now()
+	n1 := w.Effects()
 	// A canary tells whether this process got processor time during the window:
 	// on a starved machine nothing moves either, and that is not a wedge.
 	var ticks atomic.Int64
@@ -416,7 +428,7 @@ func (w *World) Diagnose(window time.Duration) (wedged bool, report string) {
 	time.Sleep(window)
 	close(stop)
 	s2 := MqttStacks()
-	n2 := w.Now()
+	n2 := w.Effects()
 	if want := int64(window / (4 * time.Millisecond)); ticks.Load() < want {
 		return false, fmt.Sprintf("machine overloaded: the canary goroutine ran %d times in %v (a wedge needs at least %d)", ticks.Load(), window, want)
 	}
